@@ -48,6 +48,10 @@ TRUSTED = [
     'stream kills: os._exit(137) inside the read() method of the file-like value handed to set / add / push(read=True) stands for a kill between two '
     'write chunks of the value file (the library is inside Disk._write, the file is created and open)',
     'the Python reference of harness/props/c05.py (RefCache / RefDeque / RefIndex) as the meaning of "fully applied"',
+    'containers: DjangoCache offers no check of its own; the repair of a DjangoCache directory is the check(fix=True) of the FanoutCache it is built '
+    'on (DjangoCache._cache), that of a Deque / Index obtained from a FanoutCache is the check of its .cache plus the FanoutCache\'s own; '
+    'FanoutCache.deque / .index take no settings, so the file threshold of 8 bytes is stored in the sub-cache\'s Settings table with Cache.reset '
+    'when the workload\'s directory is prepared',
 ]
 ASSUMPTIONS = [
     'power loss / OS crash (un-synced pages) is out of scope: only process death',
@@ -222,26 +226,26 @@ def lib_check(c, fix=False):
     return ws
 
 
-def inspect(directory, kind, wl, k, clock):
-    """All post-mortem checks.  k = result of kill_child.  Returns list of (sig, description)."""
-    out = []
+def allowed_states(kind, wl, k):
+    """The reference states the directory may be in after the kill: every unit reported finished applied, and that plus
+    the interrupted unit (bulk removals / library-level loops: a prefix of their steps)."""
     program = wl['program']
     units = units_of_program(program)
     done_idx = set(rec['index'] for rec in k['records'])
     ref = c05.make_ref(kind if kind != 'cache' else 'cache')
     if kind == 'deque':
         ref.maxlen = (wl.get('settings') or {}).get('maxlen')
-    if kind == 'cache':
+    if kind in ('cache', 'fanout'):
         ref.cull_limit = 10
     # the setup ran with lazy culling as well (same settings), so the reference replays it the same way
-    if kind == 'cache':
+    if kind in ('cache', 'fanout'):
         ref.now = SETUP_NOW
     for call in wl['setup']:
         try:
             ref.apply(call)
         except c05.Raise:
             pass
-    if kind == 'cache':
+    if kind in ('cache', 'fanout'):
         ref.now = c05.NOW
     inflight = None
     for u in units:
@@ -276,6 +280,13 @@ def inspect(directory, kind, wl, k, clock):
                     allowed.append(s)
                 except c05.Raise:
                     pass
+    return allowed
+
+
+def inspect(directory, kind, wl, k, clock):
+    """All post-mortem checks.  k = result of kill_child.  Returns list of (sig, description)."""
+    out = []
+    allowed = allowed_states(kind, wl, k)
     # 1. contents through the API of a fresh handle
     try:
         with instr.Installed(clock):
@@ -365,6 +376,377 @@ def classify(viol, wl, k):
     """(Until the repair recorded under C06-F1 / C07-F1 this attributed a committed row without its file, after a kill inside an
     open block that had already removed the file, to that defect.  Nothing is re-attributed any more.)"""
     return viol
+
+
+# ---------------------------------------------------------------------------
+# containers built on Cache: a process can be killed inside a FanoutCache (any shard count), a DjangoCache, or a Deque / Index obtained
+# from a FanoutCache.  The property makes no exception for them: what the kill leaves must be the permitted debris only, and a repair --
+# the one THAT container offers (FanoutCache.check(fix=True) over its shards; the FanoutCache behind a DjangoCache; the cache of the Deque /
+# Index) -- must remove it.  cont = {'kind': 'fanout' | 'django' | 'fanout-deque' | 'fanout-index', 'shards': n, 'maxlen': None | n}
+
+CONT_NAME = 'jobs/q1'
+CONTAINERS = [{'kind': 'fanout', 'shards': 1}, {'kind': 'fanout', 'shards': 2}, {'kind': 'fanout', 'shards': 3}, {'kind': 'fanout', 'shards': 5},
+              {'kind': 'django', 'shards': 2}, {'kind': 'django', 'shards': 3},
+              {'kind': 'fanout-deque', 'shards': 2}, {'kind': 'fanout-index', 'shards': 2}]
+CONT_INTERP = {'fanout': 'fanout', 'django': 'fanout', 'fanout-deque': 'deque', 'fanout-index': 'index'}
+
+
+def cont_label(cont):
+    return '%s(shards=%d)' % (cont['kind'], cont.get('shards', 2))
+
+
+def _django_class():
+    from django.conf import settings as dj_settings
+    if not dj_settings.configured:
+        dj_settings.configure()
+    from diskcache.djangocache import DjangoCache
+    return DjangoCache
+
+
+class DjangoAdapter:
+    """A DjangoCache behind the call vocabulary of concdrv.apply_call(kind='fanout'): expire= is the backend's timeout= (None = never),
+    keys go through make_key (so the stored key of 'k' is ':1:k')."""
+
+    def __init__(self, dj):
+        self.dj = dj
+
+    def set(self, key, value, expire=None, read=False, tag=None, retry=False):
+        return self.dj.set(key, value, timeout=expire, read=read, tag=tag, retry=retry)
+
+    def add(self, key, value, expire=None, read=False, tag=None, retry=False):
+        return self.dj.add(key, value, timeout=expire, read=read, tag=tag, retry=retry)
+
+    def incr(self, key, delta=1, default=0, retry=False):
+        return self.dj.incr(key, delta, default=default, retry=retry)
+
+    def decr(self, key, delta=1, default=0, retry=False):
+        return self.dj.decr(key, delta, default=default, retry=retry)
+
+    def get(self, key, default=None, retry=False, **kw):
+        return self.dj.get(key, default=default, retry=retry)
+
+    def pop(self, key, default=None, retry=False):
+        return self.dj.pop(key, default=default, retry=retry)
+
+    def delete(self, key, retry=False):
+        return self.dj.delete(key, retry=retry)
+
+    def touch(self, key, expire=None, retry=False):
+        return self.dj.touch(key, timeout=expire, retry=retry)
+
+
+class Opened:
+    """A container opened on a directory: .obj runs the program, .kind is the call vocabulary (concdrv.apply_call), .caches are all the
+    Cache objects behind it (shards, and the cache of the Deque / Index), .repair(fix) is the container's own check."""
+
+    def __init__(self, cont, directory, timeout):
+        kind, shards = cont['kind'], cont.get('shards', 2)
+        self.cont, self.kind = cont, CONT_INTERP[kind]
+        if kind == 'django':
+            dj = _django_class()(directory, {'SHARDS': shards, 'DATABASE_TIMEOUT': timeout, 'OPTIONS': dict(SETTINGS)})
+            self.fanout, self.obj, self.sub = dj._cache, DjangoAdapter(dj), None
+            self.key = lambda k: dj.make_key(k)
+        else:
+            self.fanout = diskcache.FanoutCache(directory, shards=shards, timeout=timeout, **SETTINGS)
+            self.key = lambda k: k
+            if kind == 'fanout':
+                self.obj, self.sub = self.fanout, None
+            else:
+                self.obj = self.fanout.deque(CONT_NAME, maxlen=cont.get('maxlen')) if kind == 'fanout-deque' else self.fanout.index(CONT_NAME)
+                self.sub = self.obj.cache
+                if self.sub.disk_min_file_size != SETTINGS['disk_min_file_size']:
+                    # FanoutCache.deque / index take no settings: the file threshold of the workloads is stored in the sub-cache's
+                    # Settings table when the directory is prepared (every later handle reads it from there)
+                    self.sub.reset('disk_min_file_size', SETTINGS['disk_min_file_size'])
+        self.caches = list(self.fanout._shards) + ([self.sub] if self.sub is not None else [])
+
+    def db_dirs(self):
+        return [c.directory for c in self.caches]
+
+    def repair(self, fix):
+        """The container's own check: FanoutCache.check over the shards (also the FanoutCache a DjangoCache is built on), and the check
+        of the cache behind a Deque / Index obtained from it."""
+        with warnings.catch_warnings():
+            warnings.simplefilter('always')
+            ws = list(self.fanout.check(fix=fix))
+            if self.sub is not None:
+                ws += list(self.sub.check(fix=fix))
+        return ws
+
+    def close(self):
+        for c in self.caches:
+            try:
+                c.close()
+            except Exception:  # noqa
+                pass
+
+
+def kill_container(directory, cont, calls, kill_n=None, now=c05.NOW, timeout=5, wall_limit=60.0, stream=None):
+    """concdrv.kill_child for a container of this section: ONE forked child opens it on `directory` (untraced), runs `calls` under a
+    Tracer and ends with os._exit(137) before its event number kill_n (None: runs to completion).  stream = (chunks, die_at): the
+    value '<stream>' of a call is a DyingStream handed over with read=True (the process ends inside its read() number die_at).
+    Same result dictionary as kill_child."""
+    rfd, wfd = os.pipe()
+    sys.stdout.flush()
+    sys.stderr.flush()
+    pid = os.fork()
+    if pid == 0:
+        code = 1
+        try:
+            os.close(rfd)
+            clock = instr.Clock(now)
+            count = [0]
+            send = concdrv._send
+
+            def before(ev):
+                n = count[0]
+                if kill_n is not None and n == kill_n:
+                    send(wfd, {'kill': n, 'ev': ev.short()})
+                    os._exit(137)
+                count[0] += 1
+                send(wfd, {'ev': ev.short()})
+            import sched
+            tracer = sched.Tracer(before=before, clock=clock)
+            with instr.Installed(clock), tracer:
+                clock.on_sleep = lambda dt: _time.sleep(0.001)
+                o = Opened(cont, directory, timeout)
+                for c in o.caches:
+                    c._con          # the opening PRAGMAs of this thread's connection are not events
+                clock.on_sleep = None
+                if stream is not None:
+                    call = calls[-1]
+                    for c_ in calls[:-1]:
+                        concdrv.apply_call(o.obj, c_, o.kind)
+                    s = DyingStream(stream[0], stream[1])
+                    if call['op'] == 'push':
+                        o.obj.push(s, read=True)
+                    else:
+                        getattr(o.obj, call['op'])(call['key'], s, read=True)
+                else:
+                    it = concdrv.Interp(0, o.obj, o.kind, calls, lambda: count[0],
+                                        on_done=lambda rec: send(wfd, {'rec': {a: b for a, b in rec.items() if a != 'call'}}),
+                                        on_start=lambda j, call, depth: send(wfd, {'start': j, 'depth': depth, 'e0': count[0]}))
+                    tracer.enable(True)
+                    it.run()
+                    tracer.enable(False)
+                send(wfd, {'done': True, 'nevents': count[0]})
+                o.close()
+            code = 0
+        except BaseException:  # noqa
+            try:
+                import traceback
+                concdrv._send(wfd, {'fatal': traceback.format_exc()[-1500:]})
+            except Exception:  # noqa
+                pass
+        finally:
+            os._exit(code)
+    os.close(wfd)
+    rd = concdrv._LineReader(rfd)
+    msgs = []
+    t0 = _time.time()
+    while True:
+        m = rd.read_msg(timeout=5.0)
+        if m is None:
+            if rd.eof:
+                break
+            if _time.time() - t0 > wall_limit:
+                try:
+                    os.kill(pid, signal.SIGKILL)
+                except OSError:
+                    pass
+                msgs.append({'fatal': 'child exceeded wall limit'})
+                break
+            continue
+        msgs.append(m)
+    os.close(rfd)
+    _, status = os.waitpid(pid, 0)
+    out = {'events': [], 'records': [], 'started': None, 'started_depth': 0, 'killed': False, 'done': False, 'status': status, 'fatal': None,
+           'nevents': None}
+    for m in msgs:
+        if 'ev' in m and 'kill' not in m:
+            out['events'].append(m['ev'])
+        elif 'kill' in m:
+            out['killed'] = True
+            out['kill_event'] = m['ev']
+        elif 'rec' in m:
+            out['records'].append(m['rec'])
+            out['started'] = None
+        elif 'start' in m:
+            out['started'], out['started_depth'], out['started_e0'] = m['start'], m['depth'], m.get('e0')
+        elif 'done' in m:
+            out['done'], out['nevents'] = True, m['nevents']
+        elif 'fatal' in m:
+            out['fatal'] = m['fatal']
+    return out
+
+
+def inspect_container(directory, cont, wl, k, clock):
+    """The post-mortem checks of `inspect` for a container of this section, made through THAT container: contents through a fresh handle,
+    the container's check() reports nothing but unknown files / empty directories, a write through the container succeeds at once, the
+    container's check(fix=True) followed by its check() is clean, and afterwards every file and directory below the container's directory is
+    accounted for.  Signatures carry the container kind.  Returns ([(sig, text)], info)."""
+    out = []
+    kind, shards = cont['kind'], cont.get('shards', 2)
+    ikind = CONT_INTERP[kind]
+    try:
+        with instr.Installed(clock):
+            o = Opened(cont, directory, 1)
+    except Exception as e:  # noqa
+        return [('unusable_after_kill:' + kind, 'the %s cannot be opened on the directory after the kill: %r' % (cont_label(cont), e))], None
+    bad, debris, snap = [], [], None
+    try:
+        # the reference speaks of the keys as they are stored (a DjangoCache stores make_key(key))
+        def mapped(calls):
+            return [dict(c, key=o.key(c['key'])) if 'key' in c else c for c in calls]
+        rwl = dict(wl, setup=mapped(wl['setup']), program=mapped(wl['program']), settings={'maxlen': cont.get('maxlen')})
+        allowed = allowed_states(ikind, rwl, k)
+        try:
+            with instr.Installed(clock):
+                snap = concdrv.api_snapshot(directory, 'fanout', shards=shards) if ikind == 'fanout' else concdrv.api_snapshot(o.sub.directory, ikind)
+        except Exception as e:  # noqa
+            return [('unusable_after_kill:' + kind, 'a fresh handle cannot read the directory: %r' % e)], None
+        for key, present, v, e_, t_, filed in snap['items']:
+            if (present or ikind == 'deque') and (v == MISS or (isinstance(v, str) and v.startswith('EXC:'))):
+                out.append(('present_key_unreadable', 'key %r is reported present (in / iteration) but reading it yields %r' % (key, v)))
+        if not any(c05.final_matches(ikind, snap)(s) for s in allowed) and not out:
+            out.append(('contents_not_atomic', 'contents after the kill %r are neither the state after the finished calls %r nor that plus the interrupted '
+                        'call %r' % ([[x[0], x[2]] for x in snap['items']][:8], allowed[0].final_view()[:8], allowed[-1].final_view()[:8])))
+        with instr.Installed(clock):
+            ws = o.repair(False)
+            bad = [w for w in ws if not issubclass(w.category, (diskcache.UnknownFileWarning, diskcache.EmptyDirWarning))]
+            debris = [w for w in ws if issubclass(w.category, diskcache.UnknownFileWarning)]
+            for w in bad[:2]:
+                msg = str(w.message).replace(directory, '<dir>')
+                out.append(('check_reports:' + msg.split(':')[0].replace(' ', '_'), 'check() reports %r' % msg))
+            # a write through the container succeeds at once (several keys, so that every shard is likely to be written)
+            slowest, ok = 0.0, True
+            try:
+                target = o.obj if ikind == 'fanout' else o.sub
+                for j in range(2 * shards if ikind == 'fanout' else 1):
+                    for call in (lambda: target.set('__probe%d__' % j, 'p' * 40), lambda: target.delete('__probe%d__' % j)):
+                        t0 = _time.time()
+                        r_ = call()
+                        slowest = max(slowest, _time.time() - t0)
+                        ok = ok and r_ is True
+            except Exception as e:  # noqa
+                ok = repr(e)
+            if ok is not True or slowest > 0.9:
+                out.append(('write_blocked', 'writes through the %s after the kill returned %r (slowest call %.1f s; the handle waits 1 s for a lock)'
+                            % (cont_label(cont), ok, slowest)))
+            # the container's own repair
+            o.repair(True)
+            ws2 = o.repair(False)
+            if ws2 and not bad:
+                out.append(('repair_incomplete', 'after %s.check(fix=True) its check() still reports %r' % (
+                    'the FanoutCache behind the DjangoCache' if kind == 'django' else ('FanoutCache' if o.sub is None else 'FanoutCache / ' + kind[7:] + '.cache'),
+                    str(ws2[0].message).replace(directory, '<dir>'))))
+            dbs = o.db_dirs()
+    finally:
+        o.close()
+    if not bad:
+        for sig, text in debris_after_repair(directory, dbs)[:2]:
+            out.append((sig, text))
+    return [(sig + ':' + kind, '%s [%s]' % (text, cont_label(cont))) for sig, text in out], {'debris': len(debris), 'snap': snap}
+
+
+def container_workloads(cont):
+    """[(name, setup, program)]: a finished call, the call under test on a file-backed value, a later call."""
+    kind = cont['kind']
+    if kind in ('fanout', 'django'):
+        pre = [{'op': 'set', 'key': 'pre', 'value': BIG}]
+        post = [{'op': 'set', 'key': 'post', 'value': SMALL}]
+        base = [{'op': 'set', 'key': 'k', 'value': BIG}, {'op': 'set', 'key': 'other', 'value': BIG}, {'op': 'set', 'key': 'o2', 'value': 5}]
+        cases = [('set-new', [], {'op': 'set', 'key': 'k', 'value': BIG2}), ('add-new', [], {'op': 'add', 'key': 'k', 'value': BIG2}),
+                 ('set-replace', base, {'op': 'set', 'key': 'k', 'value': BIG2}), ('pop', base, {'op': 'pop', 'key': 'k'}),
+                 ('delete', base, {'op': 'delete', 'key': 'k'}), ('set-file-to-inline', base, {'op': 'set', 'key': 'k', 'value': 7}),
+                 ('incr-new', base, {'op': 'incr', 'key': 'n', 'delta': 3}), ('touch', base, {'op': 'touch', 'key': 'k', 'expire': 50})]
+        out = [(n, s, pre + [c] + post) for n, s, c in cases]
+        if kind == 'fanout':
+            out.append(('block', base, pre + in_block([{'op': 'set', 'key': 'k', 'value': BIG2}, {'op': 'incr', 'key': 'n'}]) + post))
+            out.append(('setitem-replace', base, pre + [{'op': 'setitem', 'key': 'k', 'value': BIG2}] + post))
+            out.append(('block-move', base, pre + in_block([{'op': 'pop', 'key': 'k'}, {'op': 'set', 'key': 'moved', 'value': BIG2}]) + post))
+        return out
+    if kind == 'fanout-deque':
+        dq = [{'op': 'append', 'value': BIG}, {'op': 'append', 'value': BIG2}, {'op': 'append', 'value': 3}]
+        return [(n, dq, [{'op': 'append', 'value': 0}, c, {'op': 'append', 'value': 99}]) for n, c in (
+            ('append', {'op': 'append', 'value': BIG2}), ('appendleft', {'op': 'appendleft', 'value': BIG2}), ('popleft', {'op': 'popleft'}),
+            ('pop', {'op': 'pop'}), ('setitem', {'op': 'setitem', 'index': 0, 'value': BIG2}), ('rotate', {'op': 'rotate', 'steps': 1}))]
+    ix = [{'op': 'setitem', 'key': 'a', 'value': BIG}, {'op': 'setitem', 'key': 'b', 'value': BIG2}]
+    return [(n, ix, [{'op': 'setitem', 'key': 'pre', 'value': 1}, c, {'op': 'setitem', 'key': 'post', 'value': 2}]) for n, c in (
+        ('setitem-new', {'op': 'setitem', 'key': 'c', 'value': BIG2}), ('setitem-replace', {'op': 'setitem', 'key': 'a', 'value': BIG2}),
+        ('popitem-first', {'op': 'popitem', 'last': False}), ('pop', {'op': 'pop', 'key': 'b'}),
+        ('setdefault', {'op': 'setdefault', 'key': 'c', 'default': BIG2}), ('delitem', {'op': 'delitem', 'key': 'a'}))]
+
+
+def container_template(ctx, cont, setup):
+    d = concdrv.scratch(ctx, 'c07ct')
+    k = kill_container(d, cont, setup, kill_n=None, now=SETUP_NOW, timeout=60)
+    if k['fatal'] or not k['done']:
+        raise RuntimeError('setup of a %s workload failed: %r' % (cont_label(cont), k['fatal']))
+    return d
+
+
+def container_kill_case(ctx, cont, wl, tmpl, kn):
+    d = concdrv.scratch(ctx, 'c07c')
+    shutil.rmtree(d)
+    shutil.copytree(tmpl, d)
+    k = kill_container(d, cont, wl['program'], kill_n=kn)
+    if k['fatal'] or not k['killed']:
+        return [('child_failed', 'child of %s kill %d: %r' % (wl['name'], kn, k['fatal']))], None, k, d
+    viol, info = inspect_container(d, cont, wl, k, instr.Clock(c05.NOW))
+    return viol, info, k, d
+
+
+def container_kills(ctx, res, stats, thorough, deadline=None):
+    """Crash enumeration for the containers built on Cache.  quick: every container kind, the shard counts rotated by the seed, a storing
+    workload of a file-backed value and one other workload each, every kill point; thorough: every container x every workload."""
+    rng = random.Random(ctx.seed * 104729 + 11)
+    st = stats.setdefault('container_kills', {})
+    if thorough:
+        plan = [(cont, w) for cont in CONTAINERS for w in container_workloads(cont)]
+    else:
+        fan = [c for c in CONTAINERS if c['kind'] == 'fanout']
+        dj = [c for c in CONTAINERS if c['kind'] == 'django']
+        conts = [fan[(ctx.seed + 1) % len(fan)], fan[(ctx.seed + 2) % len(fan)], dj[ctx.seed % len(dj)]] + [c for c in CONTAINERS if c['kind'].startswith('fanout-')]
+        plan = []
+        for cont in conts:
+            wls = container_workloads(cont)
+            storing = [w for w in wls if w[0] in ('set-new', 'add-new', 'append', 'appendleft', 'setitem-new', 'setdefault')]
+            first = rng.choice(storing)
+            plan.append((cont, first))
+            if cont['kind'] in ('fanout', 'django'):
+                plan.append((cont, rng.choice([w for w in wls if w is not first])))
+    for cont, (name, setup, program) in plan:
+        wl = {'name': '%s:%s' % (cont_label(cont), name), 'kind': CONT_INTERP[cont['kind']], 'setup': setup, 'program': program, 'settings': SETTINGS}
+        tmpl = container_template(ctx, cont, setup)
+        d0 = concdrv.scratch(ctx, 'c07c')
+        shutil.rmtree(d0)
+        shutil.copytree(tmpl, d0)
+        full = kill_container(d0, cont, program, kill_n=None)
+        shutil.rmtree(d0, ignore_errors=True)
+        if full['fatal'] or not full['done']:
+            res.violations.append(fw.Violation('workload_failed', 'workload %s does not complete without a kill: %r' % (wl['name'], full['fatal']),
+                                               {'check': 'container_kill', 'container': cont, 'workload': wl, 'kill_n': None}))
+            continue
+        n = full['nevents']
+        stats['kill_points'][wl['name']] = n
+        st[cont_label(cont)] = st.get(cont_label(cont), 0) + n
+        for kn in range(n):
+            viol, info, k, d = container_kill_case(ctx, cont, wl, tmpl, kn)
+            shutil.rmtree(d, ignore_errors=True)
+            case = {'check': 'container_kill', 'container': cont, 'workload': wl, 'kill_n': kn, 'kill_event': k.get('kill_event'), 'events_before': k['events'][-12:]}
+            stats['kills'] += 1
+            if info:
+                stats['kills_leaving_debris'] += int(info['debris'] > 0)
+            res.count([wl['name'], kn], nontrivial=True)
+            for sig, desc in viol[:3]:
+                res.violations.append(fw.Violation(sig, '%s [workload %s, killed before event %d/%d = %s]' % (desc, wl['name'], kn, n, k.get('kill_event')), case))
+                stats['by_sig'][sig] = stats['by_sig'].get(sig, 0) + 1
+            if c05.enough(res, ID, EXPECTED_SIGS):
+                break
+        shutil.rmtree(tmpl, ignore_errors=True)
+        if c05.enough(res, ID, EXPECTED_SIGS) or (deadline is not None and _time.time() > deadline):
+            break
 
 
 # ---------------------------------------------------------------------------
@@ -551,12 +933,20 @@ class DyingStream:
 STREAM_CHUNKS = ([b'one-chunk-of-a-stream'], [b'first-chunk-' * 3, b'second-chunk'], [b'a' * 70000, b'b' * 9, b'c' * 4097])
 
 
-def stream_kill_case(ctx, op, chunks, die_at, replace):
+def stream_kill_case(ctx, op, chunks, die_at, replace, cont=None):
     """A child stores 'done' (file-backed), then is killed inside the die_at-th read() of the stream it hands to
-    set / add / push (read=True): the value file exists, is partly written and still open.  Returns (problems, directory)."""
+    set / add / push (read=True): the value file exists, is partly written and still open.  cont: the container the child works
+    through (None: a plain Cache).  Returns (problems, directory)."""
     d = concdrv.scratch(ctx, 'c07r')
     setup = [{'op': 'set', 'key': 'done', 'value': BIG}] + ([{'op': 'set', 'key': 'victim', 'value': BIG2}] if replace else [])
     call = {'op': op, 'key': 'victim', 'value': '<stream>'} if op != 'push' else {'op': 'push', 'value': '<stream>'}
+    if cont is not None:
+        k = kill_container(d, cont, setup + [call], stream=(chunks, die_at))
+        if not (os.WIFEXITED(k['status']) and os.WEXITSTATUS(k['status']) == 137):
+            return [('child_failed', 'the child writing a stream ended with status %r (%r) instead of being killed inside read()' % (k['status'], k['fatal']))], d
+        wl = W('%s:stream-%s%s' % (cont_label(cont), op, ':replace' if replace else ''), 'fanout', setup, [call])
+        viol, info = inspect_container(d, cont, wl, {'records': [], 'started': 0}, instr.Clock(c05.NOW))
+        return viol, d
     sys.stdout.flush()
     sys.stderr.flush()
     pid = os.fork()
@@ -583,26 +973,31 @@ def stream_kill_case(ctx, op, chunks, die_at, replace):
     return viol, d
 
 
-def stream_kills(ctx, res, stats):
+def stream_kills(ctx, res, stats, conts=(None,)):
     """Kills BETWEEN the write chunks of a value file (file created, some chunks written, not closed): values handed over as
     streams (read=True) of 1-3 chunks, the process dies inside each read() of the stream.  Decided by the same inspection
-    as every other kill point (contents, check(), a write, the repair and what is left on disk after it)."""
-    for op, replace in (('set', False), ('set', True), ('add', False), ('push', False)):
-        for chunks in STREAM_CHUNKS:
-            for die_at in range(1, len(chunks) + 2):
-                viol, d = stream_kill_case(ctx, op, chunks, die_at, replace)
-                case = {'check': 'stream_kill', 'op': op, 'replace': replace, 'chunks': [len(x) for x in chunks], 'nchunks': STREAM_CHUNKS.index(chunks),
-                        'die_at': die_at}
-                stats['kills'] += 1
-                stats['stream_kills'] = stats.get('stream_kills', 0) + 1
-                res.count(['stream-kill', op, replace, case['chunks'], die_at], nontrivial=True)
-                for sig, desc in viol[:3]:
-                    res.violations.append(fw.Violation(sig, '%s [%s(read=True) of a stream of %d chunks%s, process killed inside read() number %d]' % (
-                        desc, op, len(chunks), ' replacing a file-backed value' if replace else '', die_at), case))
-                    stats['by_sig'][sig] = stats['by_sig'].get(sig, 0) + 1
-                shutil.rmtree(d, ignore_errors=True)
-                if c05.enough(res, ID, EXPECTED_SIGS):
-                    return
+    as every other kill point (contents, check(), a write, the repair and what is left on disk after it).  conts: the containers
+    the writer works through (None = a plain Cache; FanoutCache / DjangoCache: set and add)."""
+    for cont in conts:
+        for op, replace in (('set', False), ('set', True), ('add', False), ('push', False)):
+            if cont is not None and op == 'push':
+                continue
+            for chunks in STREAM_CHUNKS:
+                for die_at in range(1, len(chunks) + 2):
+                    viol, d = stream_kill_case(ctx, op, chunks, die_at, replace, cont)
+                    case = {'check': 'stream_kill', 'op': op, 'replace': replace, 'chunks': [len(x) for x in chunks], 'nchunks': STREAM_CHUNKS.index(chunks),
+                            'die_at': die_at, 'container': cont}
+                    stats['kills'] += 1
+                    stats['stream_kills'] = stats.get('stream_kills', 0) + 1
+                    res.count(['stream-kill', op, replace, case['chunks'], die_at, cont], nontrivial=True)
+                    for sig, desc in viol[:3]:
+                        res.violations.append(fw.Violation(sig, '%s [%s(read=True) of a stream of %d chunks%s%s, process killed inside read() number %d]' % (
+                            desc, op, len(chunks), ' replacing a file-backed value' if replace else '',
+                            '' if cont is None else ' through a ' + cont_label(cont), die_at), case))
+                        stats['by_sig'][sig] = stats['by_sig'].get(sig, 0) + 1
+                    shutil.rmtree(d, ignore_errors=True)
+                    if c05.enough(res, ID, EXPECTED_SIGS):
+                        return
 
 
 class Counter(dict):
@@ -863,6 +1258,12 @@ def run(ctx, big=False):
                 '(os._exit) before its n-th traced event for EVERY n; the parent then reads the directory through a fresh handle.  '
                 'After the repair (check(fix=True)) every file and directory below the cache directory is accounted for (database, value file of a row, non-empty directory).  '
                 'Streams (read=True, 1-3 chunks) given to set/add/push whose read() number j ends the process, every j.  '
+                'Containers: the same enumeration and the same post-mortem for a process killed inside a FanoutCache (shards 1, 2, 3, 5), a DjangoCache '
+                '(SHARDS 2, 3; OPTIONS) and a Deque / Index obtained from FanoutCache.deque / .index (file-backed values, every kill point of storing, '
+                'replacing and removing calls and of a FanoutCache.transact block; streams given to FanoutCache / DjangoCache set and add): contents through '
+                'a fresh handle, the CONTAINER\'s check() (FanoutCache.check over its shards, the FanoutCache behind the DjangoCache, the cache of the '
+                'Deque / Index), a write through the container, the container\'s check(fix=True) followed by its check(), then every file and directory '
+                'below the container\'s directory accounted for.  '
                 'quick = a seeded sample of workloads x all kill points; thorough = all workloads.  non-trivial = every kill point (each is a '
                 'distinct (workload, n)).')
     stats = new_stats()
@@ -878,6 +1279,9 @@ def run(ctx, big=False):
         rest = [w for w in wls if w not in must and 'pages' not in w['name']]
         rng.shuffle(rest)
         sel = must + rest[:50]
+        # always: removals of file-backed values INSIDE a block (pop; the pull behind Deque.popleft; Index del) -- the file must outlive a kill
+        # that lands before the block's COMMIT.  Appended after the sample so that the sample itself is what it was.
+        sel += [w for w in wls if w['name'] in ('cache:pop:file:block', 'deque:block:file', 'index:block:file', 'cache:pull:file:block') and w not in sel]
     else:
         sel = wls
     stats['workloads_available'] = len(wls)
@@ -895,6 +1299,14 @@ def run(ctx, big=False):
         open_kills(ctx, res, stats, thorough)
     if not c05.enough(res, ID, EXPECTED_SIGS):
         concurrent_kills(ctx, res, stats, stride=3 if not thorough else 1)
+    if not c05.enough(res, ID, EXPECTED_SIGS):
+        # the containers built on Cache (FanoutCache with several shard counts, DjangoCache, Deque / Index obtained from a FanoutCache)
+        container_kills(ctx, res, stats, thorough and not big, deadline=t0 + (260 if ctx.quick and not big else (480 if ctx.quick else 1500)))
+    if not c05.enough(res, ID, EXPECTED_SIGS):
+        fan = [c for c in CONTAINERS if c['kind'] == 'fanout']
+        dj = [c for c in CONTAINERS if c['kind'] == 'django']
+        stream_kills(ctx, res, stats, conts=[c for c in CONTAINERS if c['kind'] in ('fanout', 'django')] if thorough and not big
+                     else [fan[(ctx.seed + 1) % len(fan)], dj[(ctx.seed + 1) % len(dj)]])
     if not ctx.quick and not big and not c05.enough(res, ID, EXPECTED_SIGS):
         soak(ctx, res, stats)
     res.witnessed['block_crash_lost_file'] = stats['by_sig'].get('block_crash_lost_file', 0) > 0
@@ -930,11 +1342,28 @@ def replay(payload):
             return ok
         finally:
             ctx.cleanup()
+    if case.get('check') == 'container_kill':
+        ctx = fw.Ctx('C07', 'quick', 1)
+        try:
+            cont, wl = case['container'], case['workload']
+            tmpl = container_template(ctx, cont, wl['setup'])
+            viol, info, k, d = container_kill_case(ctx, cont, wl, tmpl, case['kill_n'])
+            print('%s, workload %s: %s' % (cont_label(cont), wl['name'], wl['program']))
+            print('killed before event %s (%s); events executed: %s' % (case['kill_n'], k.get('kill_event'), ' '.join(k['events'])))
+            print('finished calls:', [(r['index'], r['op'], r.get('result', r.get('exc'))) for r in k['records']], 'in flight:', k['started'])
+            if info and info.get('snap'):
+                print('contents after the kill:', [[x[0], x[1], x[2]] for x in info['snap']['items']])
+            print('left in the directory after the container\'s check(fix=True):', sorted(os.path.relpath(os.path.join(dp, f), d) for dp, _, fn in os.walk(d) for f in fn))
+            print('monitor:', viol)
+            return not viol
+        finally:
+            ctx.cleanup()
     if case.get('check') == 'stream_kill':
         ctx = fw.Ctx('C07', 'quick', 1)
         try:
-            viol, d = stream_kill_case(ctx, case['op'], STREAM_CHUNKS[case['nchunks']], case['die_at'], case['replace'])
-            print('%s(read=True) of a stream with chunks of %s bytes, process killed inside read() number %d' % (case['op'], case['chunks'], case['die_at']))
+            viol, d = stream_kill_case(ctx, case['op'], STREAM_CHUNKS[case['nchunks']], case['die_at'], case['replace'], case.get('container'))
+            print('%s(read=True)%s of a stream with chunks of %s bytes, process killed inside read() number %d' % (
+                case['op'], '' if not case.get('container') else ' through a ' + cont_label(case['container']), case['chunks'], case['die_at']))
             print('left in the directory after check(fix=True):', sorted(os.path.relpath(os.path.join(dp, f), d) for dp, _, fn in os.walk(d) for f in fn))
             print('monitor:', viol)
             return not viol
